@@ -1,7 +1,8 @@
 /-
   Lemmas/Bounds — numbers read from a patch are bounded (C07): `string_to_line_number` / `consume_line_number`
   return values in [0, i64Max / 4], and the three range parsers store only such numbers (or small
-  differences of them).
+  differences of them).  Normal ranges: no count is negative (`parseNormalRange_bounds`), and the new range of a `d`
+  command has no lines (`parseNormalRange_cmd`, `normalCmdOf`).
 -/
 import PatchModel.Lemmas.Unified
 namespace PatchModel.Bounds
@@ -170,14 +171,15 @@ def normalEnd (hasComma : Bool) (command : UInt8) (ns : Int) (r5 : Bytes) : Opti
   match consumeStr [44] r5 with
   | some r6 =>
     if hasComma && command != 99 then none
+    else if command == 100 then none
     else
       let (ok4, e, r7) := consumeLineNumber r6 0
       if !ok4 then none else some (e, r7)
   | none => some (ns, r5)
 
-/-- the new count -/
+/-- the new count: a range that ends before it starts is empty -/
 def normalCount (command : UInt8) (ns newEnd : Int) : Int :=
-  let cnt := newEnd - ns + 1
+  let cnt := max (newEnd - ns + 1) 0
   if command == 100 then cnt - 1 else cnt
 
 /-- everything after the old range -/
@@ -227,23 +229,61 @@ theorem normalEnd_small {hc : Bool} {cmd : UInt8} {ns : Int} {r5 : Bytes} {e : I
     simp only at h
     split at h
     · cases h
-    · have h2 := consumeLineNumber_small r6 0
-      generalize consumeLineNumber r6 0 = t at h h2
-      obtain ⟨ok4, e', r7⟩ := t
-      simp only at h h2
-      cases ok4 with
-      | false => simp at h
-      | true =>
-        simp only [Bool.not_true, Bool.false_eq_true, if_false, Option.some.injEq, Prod.mk.injEq] at h
-        rw [← h.1]; exact h2 rfl
+    · split at h
+      · cases h
+      · have h2 := consumeLineNumber_small r6 0
+        generalize consumeLineNumber r6 0 = t at h h2
+        obtain ⟨ok4, e', r7⟩ := t
+        simp only at h h2
+        cases ok4 with
+        | false => simp at h
+        | true =>
+          simp only [Bool.not_true, Bool.false_eq_true, if_false, Option.some.injEq, Prod.mk.injEq] at h
+          rw [← h.1]; exact h2 rfl
 
+/-- a `d` command has no range of lines in the new file: its new range ends where it starts -/
+theorem normalEnd_d {hc : Bool} {cmd : UInt8} {ns : Int} {r5 : Bytes} {e : Int} {r8 : Bytes} (hd : (cmd == 100) = true)
+    (h : normalEnd hc cmd ns r5 = some (e, r8)) : e = ns ∧ r8 = r5 := by
+  unfold normalEnd at h
+  generalize consumeStr [44] r5 = oc at h
+  cases oc with
+  | none => simp only [Option.some.injEq, Prod.mk.injEq] at h; exact ⟨h.1.symm, h.2.symm⟩
+  | some r6 =>
+    simp only at h
+    split at h
+    · cases h
+    · first | cases h | (rw [if_pos hd] at h; cases h)
+
+/-- (statement changed with the model: the lower bound was `-(i64Max / 4) - 1`, the count of a range that ends before it
+    starts; such a range is empty now) -/
 theorem normalCount_bounds (cmd : UInt8) {ns e : Int} (hns : Small ns) (he : Small e) :
-    -(i64Max / 4) - 1 ≤ normalCount cmd ns e ∧ normalCount cmd ns e ≤ i64Max / 4 + 1 := by
+    -1 ≤ normalCount cmd ns e ∧ normalCount cmd ns e ≤ i64Max / 4 + 1 ∧ ((cmd == 100) = false → 0 ≤ normalCount cmd ns e) := by
   rw [small_iff] at hns he
   rw [i64Max_div4]
   unfold normalCount
   simp only
-  split <;> omega
+  refine ⟨?_, ?_, ?_⟩
+  · split <;> omega
+  · split <;> omega
+  · intro hc; rw [hc]; simp only [Bool.false_eq_true, if_false]; omega
+
+theorem normalCount_d (cmd : UInt8) (ns : Int) (hd : (cmd == 100) = true) : normalCount cmd ns ns = 0 := by
+  unfold normalCount
+  simp only [hd, if_true]
+  omega
+
+/-- the new count of a normal range is never negative: `max` for `a` and `c`, and a `d` command has none -/
+theorem normalEnd_count {hc : Bool} {cmd : UInt8} {ns : Int} {r5 : Bytes} {e : Int} {r8 : Bytes} (hns : Small ns)
+    (h : normalEnd hc cmd ns r5 = some (e, r8)) :
+    0 ≤ normalCount cmd ns e ∧ normalCount cmd ns e ≤ i64Max / 4 + 1 ∧ ((cmd == 100) = true → normalCount cmd ns e = 0) := by
+  have he := normalEnd_small hns h
+  have hb := normalCount_bounds cmd hns he
+  cases hd : cmd == 100 with
+  | false => exact ⟨hb.2.2 hd, hb.2.1, fun x => by cases x⟩
+  | true =>
+    obtain ⟨rfl, _⟩ := normalEnd_d hd h
+    have := normalCount_d cmd e hd
+    refine ⟨by omega, hb.2.1, fun _ => this⟩
 
 theorem normalStep1_some {hc : Bool} {h1 h2 : Hunk} {r2 r3 : Bytes} (hs : Small h1.old.start)
     (h : normalStep1 hc h1 r2 = some (h2, r3)) :
@@ -281,7 +321,8 @@ theorem normalTail_ok {hc : Bool} {h2 : Hunk} {r3 : Bytes} (h : (normalTail hc h
     (hc = true → (normalTail hc h2 r3).2.old.count = h2.old.count) ∧
     (hc = false → (normalTail hc h2 r3).2.old.count = 0 ∨ (normalTail hc h2 r3).2.old.count = 1) ∧
     Small (normalTail hc h2 r3).2.new.start ∧
-    -(i64Max / 4) - 1 ≤ (normalTail hc h2 r3).2.new.count ∧ (normalTail hc h2 r3).2.new.count ≤ i64Max / 4 + 1 := by
+    0 ≤ (normalTail hc h2 r3).2.new.count ∧ (normalTail hc h2 r3).2.new.count ≤ i64Max / 4 + 1 ∧
+    (((normalCmd r3).1 == 100) = true → (normalTail hc h2 r3).2.new.count = 0) := by
   unfold normalTail at h ⊢
   generalize normalCmd r3 = t0 at h ⊢
   obtain ⟨cmd, r4⟩ := t0
@@ -307,21 +348,22 @@ theorem normalTail_ok {hc : Bool} {h2 : Hunk} {r3 : Bytes} (h : (normalTail hc h
     | true =>
       have hns := hl rfl
       simp only [Bool.not_true, Bool.false_eq_true, if_false] at h ⊢
-      have he := @normalEnd_small hc cmd ns r5
+      have he := @normalEnd_count hc cmd ns r5
       generalize normalEnd hc cmd ns r5 = oe at h he ⊢
       cases oe with
       | none => cases h
       | some p =>
         obtain ⟨e, r8⟩ := p
         simp only at h ⊢
-        have := normalCount_bounds cmd hns (he hns rfl)
-        exact ⟨h3s, h3c1, h3c0, hns, this.1, this.2⟩
+        have := he hns rfl
+        exact ⟨h3s, h3c1, h3c0, hns, this.1, this.2.1, this.2.2⟩
 
+/-- (statement changed with the model: the lower bound of the new count was `-(i64Max / 4) - 1`) -/
 theorem parseNormalRange_bounds (h0 : Hunk) (l : Bytes) (h : (parseNormalRange h0 l).1 = true) :
     Small (parseNormalRange h0 l).2.old.start ∧
     0 ≤ (parseNormalRange h0 l).2.old.count ∧ (parseNormalRange h0 l).2.old.count ≤ i64Max / 4 + 1 ∧
     Small (parseNormalRange h0 l).2.new.start ∧
-    -(i64Max / 4) - 1 ≤ (parseNormalRange h0 l).2.new.count ∧ (parseNormalRange h0 l).2.new.count ≤ i64Max / 4 + 1 := by
+    0 ≤ (parseNormalRange h0 l).2.new.count ∧ (parseNormalRange h0 l).2.new.count ≤ i64Max / 4 + 1 := by
   rw [parseNormalRange_eq] at h ⊢
   have h1 := consumeLineNumber_small l h0.old.start
   generalize consumeLineNumber l h0.old.start = t1 at h h1 ⊢
@@ -340,7 +382,7 @@ theorem parseNormalRange_bounds (h0 : Hunk) (l : Bytes) (h : (parseNormalRange h
           | none => (false, ({ h0 with old := { h0.old with start := os } } : Hunk))
           | some (h2, r3) => normalTail hc h2 r3).2
         Small R.old.start ∧ 0 ≤ R.old.count ∧ R.old.count ≤ i64Max / 4 + 1 ∧ Small R.new.start ∧
-          -(i64Max / 4) - 1 ≤ R.new.count ∧ R.new.count ≤ i64Max / 4 + 1 := by
+          0 ≤ R.new.count ∧ R.new.count ≤ i64Max / 4 + 1 := by
       intro hc r2 hk
       have hst := fun h2 r3 => @normalStep1_some hc { h0 with old := { h0.old with start := os } } h2 r2 r3 hos
       generalize normalStep1 hc { h0 with old := { h0.old with start := os } } r2 = st at hk hst ⊢
@@ -350,7 +392,7 @@ theorem parseNormalRange_bounds (h0 : Hunk) (l : Bytes) (h : (parseNormalRange h
         obtain ⟨h2, r3⟩ := p
         simp only at hk ⊢
         obtain ⟨a1, a2, a3⟩ := hst h2 r3 rfl
-        obtain ⟨b1, b2, b3, b4, b5, b6⟩ := normalTail_ok hk
+        obtain ⟨b1, b2, b3, b4, b5, b6, _⟩ := normalTail_ok hk
         refine ⟨?_, ?_, ?_, b4, b5, b6⟩
         · rw [b1, a1]; exact hos
         · cases hc with
@@ -365,6 +407,141 @@ theorem parseNormalRange_bounds (h0 : Hunk) (l : Bytes) (h : (parseNormalRange h
     | none => exact key false r1 h
     | some r2 => exact key true r2 h
 
+
+/-! ### the command letter of a normal range line -/
+
+/-- a digit or a comma: what the ranges of a normal command line are made of -/
+def rangeByte (c : UInt8) : Bool := isDigit c || c == 44
+
+/-- the command letter of a normal range line: the first byte that is neither a digit nor a comma (0 if there is none) -/
+def normalCmdOf (l : Bytes) : UInt8 := (normalCmd (l.dropWhile rangeByte)).1
+
+theorem consumeLineNumber_rest (r : Bytes) (cur : Int) (h : (consumeLineNumber r cur).1 = true) :
+    (consumeLineNumber r cur).2.2 = r.dropWhile isDigit := by
+  unfold consumeLineNumber at h ⊢
+  cases r with
+  | nil => cases h
+  | cons c r =>
+    simp only at h ⊢
+    split
+    · rfl
+    · next hd => rw [if_neg hd] at h; cases h
+
+theorem dropWhile_rangeByte_digits (r : Bytes) : (r.dropWhile isDigit).dropWhile rangeByte = r.dropWhile rangeByte := by
+  induction r with
+  | nil => rfl
+  | cons c r ih =>
+    by_cases hd : isDigit c = true
+    · have : rangeByte c = true := by unfold rangeByte; rw [hd]; rfl
+      rw [List.dropWhile_cons_of_pos hd, List.dropWhile_cons_of_pos this, ih]
+    · rw [List.dropWhile_cons_of_neg hd]
+
+theorem consumeStr_comma_some {r r2 : Bytes} (h : consumeStr [44] r = some r2) : r = 44 :: r2 := by
+  unfold consumeStr at h
+  cases r with
+  | nil => simp [List.isPrefixOf] at h
+  | cons c r =>
+    simp only [List.isPrefixOf, Bool.and_true, beq_iff_eq] at h
+    split at h
+    · next hc => simp only [List.length_cons, List.length_nil, List.drop_succ_cons, List.drop_zero, Option.some.injEq] at h
+                 rw [← hc, h]
+    · cases h
+
+theorem normalStep1_rest {hc : Bool} {h1 h2 : Hunk} {r2 r3 : Bytes} (h : normalStep1 hc h1 r2 = some (h2, r3)) :
+    r3.dropWhile rangeByte = r2.dropWhile rangeByte := by
+  unfold normalStep1 at h
+  cases hc with
+  | false =>
+    simp only [Bool.false_eq_true, if_false, Option.some.injEq, Prod.mk.injEq] at h
+    rw [h.2]
+  | true =>
+    simp only [if_true] at h
+    have hl := consumeLineNumber_rest r2 0
+    generalize consumeLineNumber r2 0 = t at h hl
+    obtain ⟨ok2, e, r3'⟩ := t
+    simp only at h hl
+    cases ok2 with
+    | false => simp at h
+    | true =>
+      simp only [Bool.not_true, Bool.false_eq_true, if_false] at h
+      split at h
+      · cases h
+      · simp only [Option.some.injEq, Prod.mk.injEq] at h
+        rw [← h.2, hl rfl, dropWhile_rangeByte_digits]
+
+/-- the command letter of an accepted line is `a`, `c` or `d`, and the ranges before it are digits and commas -/
+theorem normalTail_cmd {hc : Bool} {h2 : Hunk} {r3 : Bytes} (h : (normalTail hc h2 r3).1 = true) :
+    r3.dropWhile rangeByte = r3 ∧
+    ((normalCmd r3).1 = 99 ∨ (normalCmd r3).1 = 97 ∨ (normalCmd r3).1 = 100) := by
+  unfold normalTail at h
+  generalize hcr : normalCmd r3 = t0 at h ⊢
+  obtain ⟨cmd, r4⟩ := t0
+  simp only at h ⊢
+  split at h
+  · cases h
+  · next hcmd =>
+    have hc3 : cmd = 99 ∨ cmd = 97 ∨ cmd = 100 := by
+      by_cases h1 : cmd = 99
+      · exact Or.inl h1
+      · by_cases h2 : cmd = 97
+        · exact Or.inr (Or.inl h2)
+        · by_cases h3 : cmd = 100
+          · exact Or.inr (Or.inr h3)
+          · exact absurd (by simp [h1, h2, h3]) hcmd
+    refine ⟨?_, hc3⟩
+    cases r3 with
+    | nil =>
+      simp only [normalCmd, Prod.mk.injEq] at hcr
+      rcases hc3 with e | e | e <;> rw [e] at hcr <;> exact absurd hcr.1 (by decide)
+    | cons c r =>
+      simp only [normalCmd, Prod.mk.injEq] at hcr
+      have : rangeByte c = false := by rw [hcr.1]; rcases hc3 with e | e | e <;> rw [e] <;> decide
+      rw [List.dropWhile_cons_of_neg (by rw [this]; decide)]
+
+/-- **a `d` command adds nothing**: an accepted normal range line whose command letter is `d` has a new range of no lines;
+    and every accepted line has one of the three command letters -/
+theorem parseNormalRange_cmd (h0 : Hunk) (l : Bytes) (h : (parseNormalRange h0 l).1 = true) :
+    (normalCmdOf l = 99 ∨ normalCmdOf l = 97 ∨ normalCmdOf l = 100) ∧
+    (normalCmdOf l = 100 → (parseNormalRange h0 l).2.new.count = 0) := by
+  rw [parseNormalRange_eq] at h ⊢
+  have h1 := consumeLineNumber_rest l h0.old.start
+  generalize consumeLineNumber l h0.old.start = t1 at h h1 ⊢
+  obtain ⟨ok, os, r1⟩ := t1
+  simp only at h h1 ⊢
+  cases ok with
+  | false => simp at h
+  | true =>
+    have hr1 := h1 rfl
+    simp only [Bool.not_true, Bool.false_eq_true, if_false] at h ⊢
+    have key : ∀ (hc : Bool) (r2 : Bytes), r2.dropWhile rangeByte = l.dropWhile rangeByte →
+        ((match normalStep1 hc { h0 with old := { h0.old with start := os } } r2 with
+          | none => (false, ({ h0 with old := { h0.old with start := os } } : Hunk))
+          | some (h2, r3) => normalTail hc h2 r3).1 = true) →
+        let R := (match normalStep1 hc { h0 with old := { h0.old with start := os } } r2 with
+          | none => (false, ({ h0 with old := { h0.old with start := os } } : Hunk))
+          | some (h2, r3) => normalTail hc h2 r3).2
+        (normalCmdOf l = 99 ∨ normalCmdOf l = 97 ∨ normalCmdOf l = 100) ∧ (normalCmdOf l = 100 → R.new.count = 0) := by
+      intro hc r2 hr2 hk
+      have hst := fun h2 r3 => @normalStep1_rest hc { h0 with old := { h0.old with start := os } } h2 r2 r3
+      generalize normalStep1 hc { h0 with old := { h0.old with start := os } } r2 = st at hk hst ⊢
+      cases st with
+      | none => cases hk
+      | some p =>
+        obtain ⟨h2, r3⟩ := p
+        simp only at hk ⊢
+        obtain ⟨c1, c2⟩ := normalTail_cmd hk
+        have e : normalCmdOf l = (normalCmd r3).1 := by
+          unfold normalCmdOf; rw [← hr2, ← hst h2 r3 rfl, c1]
+        rw [e]
+        refine ⟨c2, fun hd => ?_⟩
+        exact (normalTail_ok hk).2.2.2.2.2.2 (by rw [hd]; rfl)
+    have hl1 : r1.dropWhile rangeByte = l.dropWhile rangeByte := by rw [hr1, dropWhile_rangeByte_digits]
+    cases hoc : consumeStr [44] r1 with
+    | none => exact key false r1 hl1 (by rw [hoc] at h; exact h)
+    | some r2 =>
+      have := consumeStr_comma_some hoc
+      refine key true r2 ?_ (by rw [hoc] at h; exact h)
+      rw [← hl1, this, List.dropWhile_cons_of_pos (by decide)]
 
 /-! ### the hunk loop -/
 
